@@ -272,7 +272,6 @@ bool LuaModelReadConstraintsFromTable (
 );
 
 typedef map<string, unsigned int> StringIntMap;
-StringIntMap body_table_id_map;
 
 //==============================================================================
 RBDL_ADDON_DLLAPI
@@ -436,6 +435,9 @@ bool LuaModelReadFromTable (LuaTable &model_table, Model* model, bool verbose)
 
   int frame_count = model_table["frames"].length();
 
+  // frame name -> body id of THIS model (a process-wide map would leak names
+  // between models and is not safe when models are loaded concurrently)
+  StringIntMap body_table_id_map;
   body_table_id_map["ROOT"] = 0;
 
   for (int i = 1; i <= frame_count; i++) {
